@@ -73,6 +73,7 @@ func TestC01(t *testing.T) {
 			"bulkDelete": func(t *rapid.T) { mc.ActBulkDelete(t); mc.sampleCheck(t) },
 			"lateColumn": mc.ActLateColumn,
 			"zigzag":     mc.zigzagAction,
+			"dropColumn": mc.ActDropColumn,
 		})
 		mc.CheckFull(t, false)
 		mc.CheckFull(t, true)
